@@ -1675,6 +1675,8 @@ class Engine:
             return make_namedtuple(self, fn, args, kwargs)
         if isinstance(fn, type) and fn in (list, dict, set, tuple):
             return fn()
+        if hasattr(fn, 'vc_call'):
+            return fn.vc_call(self, args, kwargs)
         if isinstance(fn, Obj):
             m = self.find_method(fn, '__call__')
             if m is not None:
